@@ -151,13 +151,40 @@ def _init_worker():
 _HISTORY = []     # shards this worker process has run so far (a worker serves many shards, one after the other)
 
 
+def run_shard_guarded(mod, shard):
+    """mod.run_shard(shard); an exception that escapes from the code under test through a harness call that does
+    not expect one (str(), a view, a search on a successfully parsed tree) is a violation of the property being
+    checked, not a harness fault: it is reported with the shard as its replay.  Exceptions raised by harness code
+    itself propagate (exit 2)."""
+    try:
+        return mod.run_shard(shard)
+    except (HarnessError, KeyboardInterrupt, MemoryError):
+        raise
+    except Exception as e:
+        tb = traceback.extract_tb(e.__traceback__)
+        inner = tb[-1] if tb else None
+        if inner is None or not os.path.realpath(inner.filename).startswith(os.path.join(REPO, 'TexSoup') + os.sep):
+            raise
+        acc = Acc()
+        where = '%s:%s' % (os.path.basename(inner.filename), inner.name)
+        caller = [f for f in tb if not os.path.realpath(f.filename).startswith(REPO + os.sep)]
+        at = ('%s:%d %s' % (os.path.basename(caller[-1].filename), caller[-1].lineno, (caller[-1].line or '').strip())
+              if caller else '')
+        acc.violation('library-exception', {'shard': jsonable(shard), 'raised_in': where, 'harness_call': at},
+                      'no exception from this call on a tree that was parsed successfully',
+                      '%s: %s' % (type(e).__name__, str(e)[:200]), size=0)
+        for v in acc.viol:
+            v['library_exception'] = True
+        return acc
+
+
 def _run_shard(args):
     modname, shard = args
     mod = sys.modules.get(modname) or __import__(modname, fromlist=['x'])
     t0 = time.time()
     before = list(_HISTORY)
     _HISTORY.append(shard)
-    acc = mod.run_shard(shard)
+    acc = run_shard_guarded(mod, shard)
     acc.extra['shard_s'] += time.time() - t0
     for v in acc.viol:
         v.setdefault('shard', shard)
@@ -286,7 +313,7 @@ def finish(mod, tier, total, coverage, t0, assumptions):
         # replay-twice rule: the same case must fail the same way twice more, in this process
         obs = []
         for _ in range(2):
-            r = mod.replay(v['case'])
+            r = [] if v.get('library_exception') else mod.replay(v['case'])
             obs.append(sorted((x['sub'], repr(x['observed'])) for x in r))
         if obs[0] != obs[1] or (v['sub'], repr(v['observed'])) not in obs[0]:
             # not reproducible in isolation: either the harness is nondeterministic, or the code under test
@@ -315,7 +342,12 @@ def finish(mod, tier, total, coverage, t0, assumptions):
         print('KNOWN-FINDING: property=%s %s: %s (%d cases in this run, e.g. %s)' % (
             prop_id, fid, known_desc(prop_id, fid), n, json.dumps(jsonable(ex['case']))[:200]))
     for v in reported:
-        path = write_replay(prop_id, v, mod.snippet(v) if hasattr(mod, 'snippet') else '')
+        if v.get('library_exception'):
+            snip = ('# an exception escaped from the library while shard %s was explored\n# ./check %s --replay <this file> '
+                    're-runs the shard\n' % (json.dumps(jsonable(v.get('shard')))[:300], prop_id))
+        else:
+            snip = mod.snippet(v) if hasattr(mod, 'snippet') else ''
+        path = write_replay(prop_id, v, snip)
         print('VIOLATION property=%s replay=%s' % (prop_id, path))
         print('    sub=%s case=%s' % (v['sub'], json.dumps(jsonable(v['case']))[:300]))
         print('    expected=%s' % (json.dumps(jsonable(v['expected']))[:300]))
